@@ -154,6 +154,12 @@ struct Monitor {
     Vec pre;
     int preN = 0;
     bool active = true;
+    // freshness of production random draws: the value a measure/reset drew from the simulator's own
+    // generator (no scripted source installed) must not be the value the previous one drew
+    double lastRealDraw = -1.0;
+    std::string lastRealOp;
+    void forgetDraw() { lastRealDraw = -1.0; }
+    void checkDraw(const bloch::verif::SimEvent& ev);
     void install() {
         auto& h = bloch::verif::hooks();
         h.simPre = [this](const QasmSimulator& s, const bloch::verif::SimEvent&) {
@@ -161,6 +167,7 @@ struct Monitor {
             preN = s.verifQubits();
         };
         h.simPost = [this](const QasmSimulator& s, const bloch::verif::SimEvent& ev) {
+            checkDraw(ev);
             if (active)
                 check(s, ev);
         };
@@ -183,8 +190,22 @@ struct Monitor {
             R.violation("C03", "inv:len", "state length " + std::to_string(post.size()) +
                                                " for n=" + std::to_string(n) + " after " + op);
         bool preValid = pre.empty() || std::abs(normSq(pre) - 1.0) <= TOL;
-        if (!preValid)
-            return;  // an earlier op already broke the state (reported there)
+        if (!preValid) {
+            // an earlier op already broke the state (reported there, under C03/C04).  One thing is
+            // still decidable: a measurement of a state that is not a unit vector does not draw
+            // against the Born probability of the ray it stands for.
+            if (op == "measure" && !pre.empty()) {
+                double nrm = normSq(pre);
+                double born = nrm > 0 ? p1Of(pre, ev.q0) / nrm : 0.0;
+                if (std::isfinite(nrm) && std::abs(ev.p1 - born) > 1e-9)
+                    R.violation("C02", "measure:born:unnormalised-state",
+                                "measure drew against p1=" + bloch::verif::fmtDouble(ev.p1) +
+                                    " but the state has norm^2=" + bloch::verif::fmtDouble(nrm) +
+                                    ", i.e. Born probability " + bloch::verif::fmtDouble(born) + " at " +
+                                    geom(ev, n));
+            }
+            return;
+        }
         bool finite = true;
         for (auto& a : post)
             if (!std::isfinite(a.real()) || !std::isfinite(a.imag()))
@@ -291,6 +312,24 @@ struct Monitor {
 };
 static Monitor MON;
 
+void Monitor::checkDraw(const bloch::verif::SimEvent& ev) {
+    std::string op = ev.op;
+    if ((op != "measure" && op != "reset") || ev.r < 0.0 || bloch::verif::hooks().draw)
+        return;
+    R.counters["real_draws_seen"]++;
+    if (ev.r == lastRealDraw) {
+        bool wasReset = lastRealOp == "reset";
+        R.violation(wasReset ? "C04" : "C02",
+                    std::string(wasReset ? "reset" : "measure") + ":draw-not-consumed",
+                    "the random number " + bloch::verif::fmtDouble(ev.r) + " used by a " + lastRealOp +
+                        " was used again by the next " + op +
+                        ": the earlier operation did not advance the generator");
+    }
+    lastRealDraw = ev.r;
+    lastRealOp = op;
+}
+
+
 // ----------------------------------------------------------------------------------------
 // helpers to drive the simulator
 struct Rng {
@@ -299,11 +338,16 @@ struct Rng {
     int upto(int n) { return int(g() % std::uint64_t(n)); }
     double unit() { return double(g() >> 11) / 9007199254740992.0; }
     double angle() {
+        // besides the round values: angles whose half-angle sine or cosine is tiny but far above the
+        // comparison tolerance (a rotation "close enough to the identity" is still a rotation)
         static const double special[] = {0,       PI / 2,  -PI / 2, PI,    -PI,
                                          2 * PI,  -2 * PI, 4 * PI,  PI / 3, 1e-9,
-                                         1e3,     -1e3,    PI / 4,  0.1};
+                                         1e3,     -1e3,    PI / 4,  0.1,
+                                         1.5e-6,  -1.5e-6, 1e-4,    3e-7,   2e-8,
+                                         2 * PI + 1.5e-6, 2 * PI - 1.5e-6, 4 * PI - 1e-5,
+                                         PI + 1.5e-6,     PI - 1.5e-6,     -PI + 1e-5, 3e-3};
         if (upto(3) == 0)
-            return special[upto(14)];
+            return special[upto(26)];
         double a = (unit() * 2 - 1) * 2 * PI;
         return upto(2) ? double(float(a)) : a;  // float32-rounded like literals in programs
     }
@@ -413,7 +457,8 @@ static bool shardMine(long idx, int shard, int shards) { return (idx % shards) =
 // ----------------------------------------------------------------------------------------
 // workloads
 static const double ANGLES[] = {0.0,     PI / 2, -PI / 2, PI,   -PI,  2 * PI,
-                                -2 * PI, 4 * PI, PI / 3,  1e-9, 1e3,  0.7853981852531433};
+                                -2 * PI, 4 * PI, PI / 3,  1e-9, 1e3,  0.7853981852531433,
+                                1.5e-6,  -3e-7,  1e-4,    2 * PI + 1.5e-6, PI - 1.5e-6, 2e-8};
 
 static void runOneBasisCase(int n, const std::string& gate, int q0, int q1, double theta,
                             size_t basis) {
@@ -452,7 +497,7 @@ static void wExhaustive(int N, int shard, int shards) {
                 for (int q1 = (two ? 0 : -1); q1 < (two ? n : 0); ++q1) {
                     if (two && q1 == q0)
                         continue;
-                    for (int ai = 0; ai < (rot ? 12 : 1); ++ai) {
+                    for (int ai = 0; ai < (rot ? int(sizeof(ANGLES) / sizeof(ANGLES[0])) : 1); ++ai) {
                         ++idx;
                         if (!shardMine(idx, shard, shards))
                             continue;
@@ -799,6 +844,72 @@ static void historyCase(std::uint64_t cs, int maxQ, int ops) {
     h.draw = nullptr;
 }
 
+// production generator, seeded: sequences of probabilistic operations on qubits kept in superposition;
+// the draw-freshness monitor watches consecutive draws, and the pairwise correlation of consecutive
+// outcomes of independent qubits is accumulated (two independent fair outcomes agree half the time)
+static void freshCase(std::uint64_t cs, long& agree, long& pairs) {
+    Rng rg(cs);
+    int n = 2 + rg.upto(4);
+    QasmSimulator s(false);
+    for (int i = 0; i < n; ++i) s.allocateQubit();
+    bloch::verif::hooks().draw = nullptr;
+    bloch::runtime::verifReseed(cs ^ 0xf5e5ull);
+    MON.forgetDraw();
+    std::vector<bool> measured(n, false);
+    int prevOutcome = -1;
+    bool prevWasReset = false;
+    int steps = 4 + rg.upto(8);
+    for (int k = 0; k < steps; ++k) {
+        int q = rg.upto(n);
+        if (measured[q]) {
+            s.reset(q);
+            measured[q] = false;
+        }
+        // fresh, unentangled fair coin on q
+        s.reset(q);
+        s.h(q);
+        if (rg.upto(3) == 0) {
+            // reset of a fair coin: samples a branch (uses a draw), outcome not visible
+            s.reset(q);
+            prevWasReset = true;
+            prevOutcome = -1;
+            continue;
+        }
+        int out = s.measure(q);
+        measured[q] = true;
+        if (prevOutcome >= 0 && !prevWasReset) {
+            pairs++;
+            if (out == prevOutcome)
+                agree++;
+        }
+        prevOutcome = out;
+        prevWasReset = false;
+    }
+}
+
+static void wFreshDraws(std::uint64_t seed, long count, int shard, int shards, const char* prop) {
+    long agree = 0, pairs = 0;
+    for (long i = 0; i < count; ++i) {
+        if (!shardMine(i, shard, shards))
+            continue;
+        std::uint64_t cs = seed * 1315423911ull + std::uint64_t(i) * 131ull + 11;
+        std::ostringstream d;
+        d << "fresh " << cs;
+        R.currentCase = d.str();
+        R.noteCase(R.currentCase, i < 3);
+        freshCase(cs, agree, pairs);
+    }
+    R.counters["fresh_outcome_pairs"] += pairs;
+    if (pairs > 200) {
+        double dev = std::abs(double(agree) / pairs - 0.5);
+        double sigma = 0.5 / std::sqrt(double(pairs));
+        if (dev > 6 * sigma)
+            R.violation(prop, "draws:consecutive-outcomes-correlated",
+                        "consecutive measurements of independent fair qubits agreed in " +
+                            std::to_string(agree) + " of " + std::to_string(pairs) + " pairs");
+    }
+}
+
 static void wHistories(std::uint64_t seed, long count, int maxQ, int ops, int shard, int shards) {
     for (long i = 0; i < count; ++i) {
         if (!shardMine(i, shard, shards))
@@ -858,6 +969,11 @@ static void replayCase(const std::string& descr) {
         long rd;
         in >> cs >> n >> style >> K >> rd;
         measureCase(cs, n, style, K, rd);
+    } else if (kind == "fresh") {
+        std::uint64_t cs;
+        in >> cs;
+        long a = 0, p = 0;
+        freshCase(cs, a, p);
     } else if (kind == "reset") {
         std::uint64_t cs;
         int n, style, K;
@@ -908,6 +1024,10 @@ int main(int argc, char** argv) {
         } else if (P == "C02") {
             wMeasure(seed, quick ? 2000 : 30000, quick ? 128 : 1024, quick ? 64 : 400,
                      quick ? 20000 : 100000, shard, shards);
+            // measurements reached through arbitrary histories (allocations, gates, earlier
+            // measurements, resets, releases) are judged by the same monitor
+            wHistories(seed + 17, quick ? 6000 : 150000, quick ? 8 : 10, quick ? 60 : 200, shard, shards);
+            wFreshDraws(seed, quick ? 4000 : 80000, shard, shards, "C02");
             if (shard == 0)
                 wRoundingWitness();
         } else if (P == "C03") {
@@ -921,6 +1041,7 @@ int main(int argc, char** argv) {
                 wRoundingWitness();
         } else if (P == "C04") {
             wReset(seed, quick ? 3000 : 40000, quick ? 64 : 512, shard, shards);
+            wFreshDraws(seed + 5, quick ? 4000 : 80000, shard, shards, "C04");
         }
     } catch (const std::exception& ex) {
         R.violation(P, "harness:exception", std::string("unexpected exception: ") + ex.what());
